@@ -47,7 +47,8 @@ META = {
              "trees x (target, ref) pairs x distances; ring cases = every ring size 3-12 x every root x shuffled adjacency; search-tree cases = "
              "random connected graphs of 2-9 residues (trees, rings with tails, several cycles) x random roots; "
              "end-to-end cases = generated topologies x generated build files (all restraint kinds); non-trivial = a case in which "
-             "a restraint selects at least one generated residue; distinct by full input"),
+             "a restraint selects at least one generated residue; distinct by full input"
+             "; directed / added families (waves 10-12): -start on restrained residues; rings with tails and cyclic hosts with ligands; restraints between inner residues (near stretched); direction restrictions at the periodic boundary (small boxes, start grid at a face)"),
 }
 
 
